@@ -37,10 +37,10 @@ HARNESSES = {
     "h_flow":    ("harness/h_flow.cpp", ["asan", "fast", "ndebug"], "", []),
     "h_dp":      ("harness/h_dp.cpp", ["asan", "fast"], "-fno-access-control", []),
     "h_global":  ("harness/h_global.cpp", ["asan", "fast", "ndebug", "tsan"], "", []),
-    "h_hpwl":    ("harness/h_hpwl.cpp", ["asan", "fast"], "", []),
-    "h_row":     ("harness/h_row.cpp", ["asan", "fast"], "", []),
-    "h_transp":  ("harness/h_transp.cpp", ["asan", "fast"], "", []),
-    "h_t1d":     ("harness/h_t1d.cpp", ["asan", "fast"], "", []),
+    "h_hpwl":    ("harness/h_hpwl.cpp", ["asan", "fast", "tsan"], "", []),
+    "h_row":     ("harness/h_row.cpp", ["asan", "fast", "tsan"], "", []),
+    "h_transp":  ("harness/h_transp.cpp", ["asan", "fast", "tsan"], "", []),
+    "h_t1d":     ("harness/h_t1d.cpp", ["asan", "fast", "tsan"], "", []),
     "h_rows":    ("harness/h_rows.cpp", ["asan", "fast"], "", []),
     "h_density": ("harness/h_density.cpp", ["asan", "fast"], "", []),
     "h_weights": ("harness/h_weights.cpp", ["asan", "fast"], "", []),
